@@ -95,7 +95,31 @@ class Monitor:
             if cc.is_value_defined(cfg, key):
                 self.bad(ctx, "default-marked-defined", "after %s: %s holds its default but counts as user-defined" % (hist, path), hist, op)
 
+    def dotted_agrees(self, ctx, w, hist):
+        """is_value_defined(root, 'a.b.c') == is_value_defined(cfg.a.b, 'c') for every declared path"""
+        import cincoconfig as cc
+
+        def walk(cfg, spec, pre):
+            for key, f in spec["fields"]:
+                path = pre + key
+                try:
+                    local = cc.is_value_defined(cfg, key)
+                    full = cc.is_value_defined(w.cfg, path)
+                except Exception as exc:  # noqa
+                    self.bad(ctx, "is-defined-raises", "is_value_defined(%s) raised %r after %s" % (path, exc, hist), hist[:-1] or hist, hist[-1] if len(hist) > 1 else None)
+                    continue
+                if local != full:
+                    self.bad(ctx, "dotted-path-disagrees|depth%d" % (path.count(".") + 1),
+                             "after %s: is_value_defined(root, %r) is %s but asking the owning sub-configuration gives %s" % (hist, path, full, local),
+                             hist[:-1] or hist, hist[-1] if len(hist) > 1 else None)
+                if f["k"] in ("Schema", "CType"):
+                    sub = getattr(cfg, key)
+                    if isinstance(sub, cc.Config):
+                        walk(sub, f, path + ".")
+        walk(w.cfg, self.spec, "")
+
     def state(self, ctx, w, hist):
+        self.dotted_agrees(ctx, w, hist)
         if len(hist) == 1:
             init = hist[0][1] or {}
             self.check_defaults(ctx, w.cfg, self.spec, "", hist, None, skip=set(init))
@@ -103,6 +127,8 @@ class Monitor:
             for k in init:
                 if not cc.is_value_defined(w.cfg, k):
                     self.bad(ctx, "ctor-keyword-not-defined", "constructor keyword %s does not count as user-defined" % k, hist, None)
+                if init[k] is None and getattr(w.cfg, k) is not None:
+                    self.bad(ctx, "ctor-none-overwritten", "constructor keyword %s=None reads back as %s" % (k, V.show(getattr(w.cfg, k), 40)), hist, None)
             # callable defaults: evaluated for this configuration, again for the next one, values not shared
             for name, n in list(w.built.counters.items()):
                 c2 = w.built.schema()
